@@ -301,6 +301,7 @@ IMPL = {
     "cf_parse": i_cf_parse,
     "cf_contains": i_cf_contains,
     "cf_reserialize": lambda key, fb: compactfilter.CompactFilter.parse(key, fb).serialize(),
+    "cf_hash": lambda key, fb: compactfilter.CompactFilter.parse(key, fb).hash(),
     "cf_build_query": i_cf_build_query,
     "murmur3": lambda data, seed: helper.murmur3(data, seed),
     "murmur3_spec": lambda data, seed: helper.murmur3(data, seed),
@@ -401,9 +402,6 @@ def p_cf_members(key, items):
     if cf.hash() != helper.hash256(cf.serialize()) or msg.hash() != helper.hash256(raw):
         return "filter hash is not hash256 of the serialisation"
     return None
-
-
-KNOWN_RESERIALIZE = "K-C18-compactfilter-serialize-drops-equal-values"
 
 
 def p_cf_reserialize(key, items):
@@ -607,15 +605,6 @@ PROPS = {"cf_reserialize": p_cf_reserialize, "golomb_rt": p_golomb_rt, "pack_unp
          "sipround": p_sipround, "murmur_vector": p_murmur_vector, "murmur_ref": p_murmur_ref, "bloom": p_bloom,
          "bloom_vectors": p_bloom_vectors, "bip158_vector": p_bip158_vector, "cfheader_chain": p_cfheader_chain}
 
-def classify(v):
-    """known finding: serialize()/hash() of a parsed filter with equal hashed values (duplicates or collisions)"""
-    if v["kind"] == "prop" and v["name"] == "cf_reserialize":
-        key, items = v["args"]
-        if len(set(ref_hashed(key, list(items)))) < len(items) and "differs from raw" in v.get("detail", ""):
-            return KNOWN_RESERIALIZE
-    return None
-
-
 # ---------------------------------------------------------------- generators
 
 GOLOMB_EDGE = [0, 1, 2, 2 ** 19 - 1, 2 ** 19, 2 ** 19 + 1, 2 ** 20 - 1, 2 ** 20, 2 ** 25, 2 ** 26 - 1, 784930, 784931,
@@ -747,6 +736,7 @@ def generate(ctx):
             yield ("corr", "decode_gcs", [bytes(bad)])
             yield ("corr", "decode_gcs", [ref_varint(n + r.randrange(1, 4)) + raw[1:]])
             yield ("corr", "cf_parse", [ctx.rbytes(16), bytes(bad)])
+            yield ("corr", "cf_reserialize", [ctx.rbytes(16), bytes(bad)])
     # unsorted lists: negative deltas (what the code does)
     for _ in range(ctx.n(20, 300)):
         vals = [r.randrange(0, 5 * M) for _ in range(r.randrange(0, 6))]
@@ -814,6 +804,7 @@ def generate(ctx):
         if n <= 400:
             yield ("prop", "cf_reserialize", [key, items])
         yield ("corr", "cf_reserialize", [key, raw])
+        yield ("corr", "cf_hash", [key, raw])
         yield ("corr", "cf_contains", [key, raw, items[:20] + others])
         yield ("corr", "cf_contains", [ctx.rbytes(16), raw, items[:5] + others])
         for it in items[:3]:
@@ -836,6 +827,7 @@ def generate(ctx):
         yield ("corr", "cf_parse", [key, compactfilter.encode_gcs(key, list(items))])
         yield ("prop", "cf_reserialize", [key, items])
         yield ("corr", "cf_reserialize", [key, compactfilter.encode_gcs(key, list(items))])
+        yield ("corr", "cf_hash", [key, compactfilter.encode_gcs(key, list(items))])
     # only duplicates
     for n in (2, 3, 7):
         key = ctx.rbytes(16)
@@ -845,6 +837,7 @@ def generate(ctx):
         yield ("corr", "cf_build_query", [key, items, items[:1] + [b"z"]])
         yield ("prop", "cf_reserialize", [key, items])
         yield ("corr", "cf_reserialize", [key, compactfilter.encode_gcs(key, list(items))])
+        yield ("corr", "cf_hash", [key, compactfilter.encode_gcs(key, list(items))])
 
     # ---- MurmurHash3: every length 0..70, boundary seeds
     for n in range(0, 71):
@@ -865,10 +858,13 @@ def generate(ctx):
 
     # ---- bloom filters: sizes 1..36000 bytes, 1..50 functions, boundary tweaks
     tweaks = [0, 1, 99, 2 ** 31, 2 ** 32 - 1, 2147483649]
-    cfgs = [(1, 1), (1, 50), (2, 3), (3, 5), (10, 5), (36000, 50), (36000, 1), (255, 7), (256, 7), (65535 // 8, 9)]
+    # (large filters last: the engine's in-Coq self-check samples the first cases of every function and
+    #  writes expected results as Coq literals)
+    cfgs = [(1, 1), (1, 50), (2, 3), (3, 5), (10, 5), (255, 7), (256, 7)]
     cfgs += [(r.randrange(1, 40), r.randrange(1, 51)) for _ in range(ctx.n(40, 1500))]
     cfgs += [(r.randrange(40, 2000), r.randrange(1, 51)) for _ in range(ctx.n(15, 300))]
     cfgs += [(r.randrange(2000, 36001), r.randrange(1, 51)) for _ in range(ctx.n(1, 25))]
+    cfgs += [(65535 // 8, 9), (36000, 50), (36000, 1)]
     for (size, fc) in cfgs:
         tweak = r.choice(tweaks + [r.getrandbits(32)] * 3)
         items = [r.choice([ctx.rbytes(20), ctx.rbytes(32), ctx.rbytes(36), rscript(ctx, r)]) for _ in range(r.randrange(0, 6 if size < 2000 else 3))]
